@@ -175,8 +175,12 @@ package iam
 //@   prop C02 C19
 //@   loop 1 invariant pexEnvelope != nil && submission != nil
 //@   loop 1 invariant !did(call (Wrapper).validatePresentationAudience #1) || isNilIface(ret(call (Wrapper).validatePresentationAudience #1))
+// the presenter every later presentation is compared with is the one the presentation before it established
+//@   loop 1 invariant !did(call validatePresentationSigner #1) || (isNilIface(ret(call validatePresentationSigner #1).1) && ret(call validatePresentationSigner #1).0 != nil && same(credentialSubjectID, *ret(call validatePresentationSigner #1).0))
 //@   loop 2 invariant pexEnvelope != nil && pexConsumer != nil && !did(call (Wrapper).validateS2SPresentationNonce #1) || isNilIface(ret(call (Wrapper).validateS2SPresentationNonce #1))
 //@   loop 3 invariant pexEnvelope != nil && pexConsumer != nil && !did(call (verifier.Verifier).VerifyVP #1) || isNilIface(ret(call (verifier.Verifier).VerifyVP #1).1)
+// verified as of now (validAt nil), with trust left to the definition (allowUntrusted) and signatures checked
+//@   call (verifier.Verifier).VerifyVP #1 requires [verified-as-of-now-with-signatures] same(arg(1), presentation) && arg(2) == true && arg(3) == true && arg(4) == nil
 //@   call validatePresentationSigner #1 requires [after-validity-window-check-of-the-same-presentation]
 //@        isNilIface(ret(call validateS2SPresentationMaxValidity #1)) && same(arg(call validateS2SPresentationMaxValidity #1, 0), arg(0)) && same(arg(1), credentialSubjectID)
 //@   call (Wrapper).validatePresentationAudience #1 requires [after-presenter-check-of-the-same-presentation]
@@ -323,6 +327,9 @@ package iam
 //@   loop 1 invariant !did(call (Wrapper).validatePresentationAudience #1) || isNilIface(ret(call (Wrapper).validatePresentationAudience #1))
 //@   loop 2 invariant pexEnvelope != nil && submission != nil && request.Body != nil && request.Body.State != nil
 //@   loop 2 invariant !did(call (verifier.Verifier).VerifyVP #1) || isNilIface(ret(call (verifier.Verifier).VerifyVP #1).1)
+//@   loop 1 invariant !did(call validatePresentationSigner #1) || (isNilIface(ret(call validatePresentationSigner #1).1) && ret(call validatePresentationSigner #1).0 != nil && same(credentialSubjectID, *ret(call validatePresentationSigner #1).0))
+//@   call validatePresentationSigner #1 requires [compared-with-the-presenter-established-so-far] same(arg(0), presentation) && same(arg(1), credentialSubjectID)
+//@   call (verifier.Verifier).VerifyVP #1 requires [verified-as-of-now-with-signatures] same(arg(1), presentation) && arg(2) == true && arg(3) == true && arg(4) == nil
 //@   call (Wrapper).validatePresentationAudience #1 requires [after-presenter-check-of-the-same-presentation]
 //@        isNilIface(ret(call validatePresentationSigner #1).1) && same(arg(call validatePresentationSigner #1, 0), arg(1)) && arg(2) == request.SubjectID
 //@   call (*PEXConsumer).fulfill #1 requires [only-verified-presentations-are-recorded] $done1 && $done2
